@@ -432,6 +432,30 @@ func init() {
 		g := e.ghostOfValue(c.common.Args[0])
 		tt := c.rt.(*types.Tuple)
 		cst, isNil := stripIface(c.common.Args[2]).(*ssa.Const)
+		if g != nil && g.kind == "map" && !isNil {
+			// Iterate(ctx, new(collections.Range[uint64])...): the stored keys within the bounds, in increasing
+			// (Descending: decreasing) key order -- the same reading of collections v0.4.0 as Walk (walk.go)
+			r := c.fr.rangeOf(c, c.common.Args[2])
+			if name, _ := pairArgs(g.kt); r != nil && r.blk == c.instr.Block() && r.prefix == "" && name == "" && kindOf(g.kt) == kInt {
+				lo, hi := r.lo, r.hi
+				it, id := e.newStoreIter(c, g, tt.At(0).Type(), func(k string) string { return and(app("<=", lo, k), app("<", k, hi)) })
+				lt := "<"
+				if r.desc {
+					lt = ">"
+				}
+				m := mangle(g.ksort)
+				e.assumeIn(c.st, fmt.Sprintf("(forall ((i Int) (j Int)) (! (=> (and (<= 0 i) (< i j) (< j (itlen %s))) (%s (itkey_%s %s i) (itkey_%s %s j))) :pattern ((itkey_%s %s i) (itkey_%s %s j))))",
+					id, lt, m, id, m, id, m, id, m, id))
+				e.assumeIn(c.st, app(">=", app("itlen", id), "0"))
+				if c.fr.iterStore == nil {
+					c.fr.iterStore = map[ssa.Value]*ghostRef{}
+				}
+				if iv, ok := c.instr.(ssa.Value); ok {
+					c.fr.iterStore[iv] = g
+				}
+				return Val{T: c.rt, Tup: []Val{it, {S: "iface_nil", T: tt.At(1).Type()}}}
+			}
+		}
 		if g == nil || g.kind != "map" || !isNil || cst.Value != nil {
 			e.note("unmodelled", "Iterate with a range or on an untraceable store in "+c.fr.fn.Name())
 			return c.fr.closureEffectsHavoc(c)
@@ -446,6 +470,16 @@ func init() {
 		return Val{T: c.rt, Tup: []Val{it, {S: "iface_nil", T: tt.At(1).Type()}}}
 	}
 	libSpecs["("+collPkg+".Map[K, V]).Iterate"] = iterate
+	libSpecs["(*"+collPkg+".IndexedMap[PrimaryKey, Value, Idx]).Iterate"] = iterate
+	libMods["(*"+collPkg+".IndexedMap[PrimaryKey, Value, Idx]).Iterate"] = func(e *Engine, cc *ssa.CallCommon) []string { return []string{itPosHeap} }
+	// Iterator.Valid / Next / Key / Close: as for the index iterators
+	pi := "(" + collPkg + ".Iterator[K, V])."
+	mi := "(" + idxPkg + ".MultiIterator[ReferenceKey, PrimaryKey])."
+	libSpecs[pi+"Valid"] = libSpecs[mi+"Valid"]
+	libSpecs[pi+"Next"] = libSpecs[mi+"Next"]
+	libMods[pi+"Next"] = libMods[mi+"Next"]
+	libSpecs[pi+"Close"] = libSpecs[mi+"Close"]
+	libSpecs[pi+"Key"] = libSpecs[mi+"PrimaryKey"]
 	libMods["("+collPkg+".Map[K, V]).Iterate"] = func(e *Engine, cc *ssa.CallCommon) []string { return []string{itPosHeap} }
 	libSpecs["("+collPkg+".Iterator[K, V]).Values"] = func(c *callCtx) Val {
 		e := c.e()
